@@ -155,9 +155,12 @@ struct Actor
 };
 
 static long long g_auto_tick = 0; // added per clock read of the scheduler thread (used while draining at exit)
+static bool g_in_poll = false;
+static void hook(int site);
 extern "C" int clock_gettime(clockid_t, struct timespec* ts)
 {
   if (!tl_actor && g_auto_tick) { g_vnow += g_auto_tick; }
+  if (!tl_actor && g_in_poll) { hook(7); } // site 7.k: the k-th clock read of the backend inside this poll
   long long const v = g_vnow.load();
   ts->tv_sec = v / 1000000000LL;
   ts->tv_nsec = v % 1000000000LL;
@@ -208,7 +211,7 @@ struct RecSink : quill::Sink
   }
   void write_log(quill::MacroMetadata const*, uint64_t ts, std::string_view, std::string_view, std::string const&,
                  std::string_view, quill::LogLevel lvl, std::string_view, std::string_view,
-                 std::vector<std::pair<std::string, std::string>> const*, std::string_view msg, std::string_view) override
+                 std::vector<std::pair<std::string, std::string>> const* named, std::string_view msg, std::string_view) override
   {
     ++wcalls;
     for (int k : wthrow)
@@ -224,6 +227,7 @@ struct RecSink : quill::Sink
     if (id >= 0) { e += std::to_string(id); }
     else { e += "E" + std::to_string(msg.size()); } // error text / internal message
     e += ":" + std::to_string(static_cast<int>(lvl)) + ":" + std::to_string(static_cast<long long>(ts) - T0);
+    if (named && !named->empty()) { e += ":na" + std::to_string(named->size()); }
     g_events.push_back(e);
   }
   void flush_sink() override
@@ -384,6 +388,11 @@ static bool do_log_dynamic_ret(LoggerT* lg, quill::LogLevel lvl, long id, size_t
   return false;
 }
 
+static void do_log_named(LoggerT* lg, long id, size_t len)
+{
+  LOG_INFO(lg, "{pay}", H2_ARG(id, len));
+}
+
 static void do_log_static(LoggerT* lg, int lvl, long id, size_t len)
 {
   switch (lvl)
@@ -470,14 +479,14 @@ static std::string exec_op(std::vector<std::string> const& w)
     a->stall_armed = true;
     return "ok";
   }
-  if (op == "L" || op == "LS" || op == "LB")
+  if (op == "L" || op == "LS" || op == "LB" || op == "LN")
   {
     Actor* a = actor_of(w[1]);
     int const g = std::stoi(w[2]);
     if (!need_idle(a) || !g_loggers.count(g) || !g_loggers[g]) { return "noop"; }
     LoggerT* lg = g_loggers[g];
-    int const lvl = op == "LB" ? 9 : std::stoi(w[3]);
-    size_t const len = std::stoul(op == "LB" ? w[3] : w[4]);
+    int const lvl = op == "LB" ? 9 : op == "LN" ? 4 : std::stoi(w[3]);
+    size_t const len = std::stoul((op == "LB" || op == "LN") ? w[3] : w[4]);
     long const id = g_next_id++;
     auto st = a->drive(
       [=]
@@ -494,6 +503,11 @@ static std::string exec_op(std::vector<std::string> const& w)
         else if (op == "LS")
         {
           do_log_static(lg, lvl, id, len);
+          r = "id=" + std::to_string(id);
+        }
+        else if (op == "LN")
+        {
+          do_log_named(lg, id, len);
           r = "id=" + std::to_string(id);
         }
         else
@@ -633,7 +647,9 @@ static std::string exec_op(std::vector<std::string> const& w)
         if (eq != std::string::npos) { g_inject[w[i].substr(1, eq - 1)] = w[i].substr(eq + 1); }
       }
     }
+    g_in_poll = true;
     g_mw->poll_one();
+    g_in_poll = false;
     g_inject.clear();
     return "ev";
   }
@@ -645,7 +661,9 @@ static std::string exec_op(std::vector<std::string> const& w)
     // what ~ManualBackendWorker does (the worker is a member of the BackendManager singleton)
     // real time passes while the drain loop spins; statements younger than now - grace become eligible
     g_auto_tick = 1000;
+    g_in_poll = true;
     quill::detail::BackendManager::instance()._backend_worker._exit();
+    g_in_poll = false;
     g_auto_tick = 0;
     g_mw = nullptr;
     return "ev";
@@ -670,7 +688,13 @@ int main(int argc, char** argv)
   std::ifstream in(argv[1]);
   std::string line;
   quill::BackendOptions bo;
-  bo.error_notifier = [](std::string const& s) { g_events.push_back(canon_notifier(s)); };
+  bo.error_notifier = [](std::string const& s)
+  {
+    std::string const c = canon_notifier(s);
+    g_events.push_back(c);
+    // site 8.k: inside the k-th drop / blocked report of this poll (the frontend keeps running meanwhile)
+    if (!tl_actor && g_in_poll && (c.rfind("n:dropped", 0) == 0 || c.rfind("n:blocked", 0) == 0)) { hook(8); }
+  };
   bo.sink_min_flush_interval = std::chrono::milliseconds{0};
   bool started = false;
   quill::detail::verif_yield_hook = hook;
